@@ -444,6 +444,9 @@ TIES = {
                     theorems=['add_condition_tie', 'add_side_effect_tie', 'clauses_in_declaration_order', 'report_unfulfilled_tie',
                               'report_forbidden_call_tie', 'return_value_tie'],
                     cxx='call_matcher::add_condition / add_side_effect / return_value, report_unfulfilled, report_forbidden_call (mock.hpp)'),
+    'RangeElements': dict(props=['C11'], gen=['IsElements', 'StartsWithElements', 'EndsWithElements'],
+                          theorems=['elem_loop', 'is_elements_tie', 'starts_with_elements_tie', 'ends_with_elements_tie'],
+                          cxx='is_elements_checker, starts_with_elements_checker, ends_with_checker (matcher/range.hpp): iterator + lambda + pack fold'),
     'Ring': dict(props=['C14'], gen=['RingUnlink', 'RingElemDtor', 'RingMoveAssign', 'RingPushFront', 'RingPushBack', 'RingBegin', 'RingEnd',
                                     'RingIterIncr', 'RingIsLinked', 'RingListDtor'],
                  theorems=['ring_unlink_tie', 'ring_elem_dtor_tie', 'ring_move_assign_tie', 'ring_push_front_tie', 'ring_push_back_tie',
